@@ -80,6 +80,11 @@ func (t *vhTransport) Receive(_ context.Context) (envelope, error) {
 	} else {
 		t.rxAliens++
 	}
+	if vParam("dropnotice", 0) == 1 && nondetBool("rx.peer-leaves-after-this") {
+		// the peer sent this and closed at once; the transport already knows (in-process pair, or a read-ahead EOF)
+		t.down = true
+		t.rxErrs++
+	}
 	return e, nil
 }
 
